@@ -386,6 +386,9 @@ func (c *cpuEvictor) calculateMilliReleaseByAllocatableThresholdPercent(threshol
 		// currently only support koord-batch/koord-mid
 		if class, ok := apiext.ReverseResourceNameMap[r]; ok {
 			prioritiesMp[class] = true
+		} else {
+			// no pod can be accounted against this resource: a target for it could never be met
+			delete(overall, r)
 		}
 	}
 	calculateFunc = func(podInfo *qosmanagerUtil.PodEvictInfo) corev1.ResourceList {
